@@ -173,6 +173,24 @@ CLAIMED["C01"] = dict(
          "statement 'reads back exactly the records written'. No bounded stand-in replaces them."),
    design="4/C01 (layers L1, L2 only)", technique="contract-based deductive verification: encoder and decoder against one closed-form spec, round-trip lemmas over the two contracts")
 
+CLAIMED["C02"] = dict(
+   text=("Deductive proof of the seek logic on the real code, for every key and every writer-produced table, relative to an abstract view of such a table: "
+         "blockReader.seek (binary search over the restart table by the exact guarantee of sort.Search, one step back, linear scan) returns an iterator positioned at a "
+         "record boundary of the block's scan such that the record before it is below the key and the record at it (if any) is at or above; restartOffset reads entry i of the "
+         "restart table; tableIter.nextBlock and tableIter.Next walk the block chain of the view (proved from the block-level step); Reader.seekLinear skips exactly the "
+         "blocks whose first key is at or below the key and lands in the right block; Reader.seekIndexed descends the index - at every level the entry it follows is the first whose "
+         "last key is at or above the key - and lands in the child block with everything before it below the key; Reader.seek/seekRecord/SeekRef/SeekLog return that iterator, the section "
+         "start for the empty key, or an empty iterator only when the section is absent or every key is below the sought key. With keys ascending along the scan (part of the view) "
+         "this is 'the scan suffix of records at or after the key', with or without an index and for any number of index levels."),
+   note=(TRUST + " ASSUMED, conditional hypothesis of every clause (tabM/blkModel): the abstract view of a writer-produced table - keys strictly ascending in and across blocks, restart table "
+         "entries are the offsets of records stored with full keys, first record a restart, index entries name the last key and position of existing child blocks at every level, the "
+         "reader's section table names the first block of each section and of its top index. That is C14 plus the decode side of C01 (layers 3-4), which are not proved; three clauses tie the real decoders to the view without "
+         "being checked against their bodies (assumes[...] on decodeRestartKey, blockIter.Next, Reader.newBlockReader; listed in the evidence). sort.Search is modelled by the "
+         "invariant of binary search (f(result-1) false, f(result) true), presuming the predicate's value does not depend on what it writes. Not decided: 'a seek never fails on a writer-produced "
+         "table' (the error latch written by the search predicate is havocked), the final step from the local landing condition to equality of whole sequences (a pure sortedness argument, stated in DESIGN.md), "
+         "Merged seeks (C03)."),
+   design="4/C02, 10.10", technique="contract-based deductive verification: abstract block/table view as conditional hypothesis, binary-search guarantee, loop invariants of the linear scan and of the index descent")
+
 CLAIMED["C12"] = dict(
    text=("Deductive proof of the name rules against an abstract set of live refs, on the real refname.go: validateRefname accepts a name exactly when none of its "
          "slash-separated components is empty, '.' or '..'; hasRef answers exactly whether the resulting view (names the transaction adds, plus names the table shows and the "
